@@ -39,7 +39,9 @@ FR = {
             "hi": "\xff", "y9999": "Fri, 31 Dec 9999 23:59:59 -0100", "y1": "Mon, 01 Jan 0001 00:00:00 +0100"},
     "body": {"obj": b'{"a": 1}', "open": b"[" * 50, "deep": b"[" * 100000, "bad8": b"\xff\xfe", "nul": b"\x00", "kv": b"a=1&b=2", "pct": b"%zz%", "amp": b"&&=",
              "mp": b'--BB\r\nContent-Disposition: form-data; name="f"\r\n\r\nv\r\n', "mpend": b"--BB--\r\n", "mpnocolon": b"--BB\r\nContent-Disposition\r\n\r\nv\r\n",
-             "mpnodisp": b"--BB\r\nX-Other: 1\r\n\r\nv\r\n", "mphi": b'--BB\r\nContent-Disposition: form-data; name="\xff"; filename="\xfe"\r\n\r\n\xff\r\n', "big": BIG.encode()},
+             "mpnodisp": b"--BB\r\nX-Other: 1\r\n\r\nv\r\n", "mpnoname": b"--BB\r\nContent-Disposition: form-data\r\n\r\nv\r\n",
+             "mpfileonly": b'--BB\r\nContent-Disposition: attachment; filename="x.txt"\r\n\r\nv\r\n',
+             "mpempty": b"--BB\r\n\r\nv\r\n", "mpcont": b'--BB\r\nContent-Disposition: form-data;\r\n name="f"\r\n\r\nv\r\n', "mphi": b'--BB\r\nContent-Disposition: form-data; name="\xff"; filename="\xfe"\r\n\r\n\xff\r\n', "big": BIG.encode()},
 }
 ENTRIES = {
     "path": ["url", "router", "files", "pages", "mount"], "query": ["query_params", "url"], "host": ["url", "hosts"], "cookie": ["cookies"],
@@ -212,7 +214,7 @@ def run(ctx):
                         ctx.violation({"channel": ch, "entry": entry, "iface": iface, "fragments": list(st["value"]), "value": repr(shown)},
                                       "a value, an HTTP 4xx, client-disconnect or stream-consumed", detail,
                                       "%s via %s (%s): %s escapes" % (ch, entry, iface, detail))
-            if any(f in ("nul", "hi", "big", "br", "bad8", "deep", "csbad", "cs16", "uni", "bigsuf", "y0", "y1", "y9999", "y9999b", "neg", "mpnocolon", "mpnodisp", "mphi",
+            if any(f in ("nul", "hi", "big", "br", "bad8", "deep", "csbad", "cs16", "uni", "bigsuf", "y0", "y1", "y9999", "y9999b", "neg", "mpnocolon", "mpnodisp", "mphi", "mpnoname", "mpfileonly", "mpempty", "mpcont",
                          "octbad", "pctbad", "br6", "date", "long", "nl") for f in st["value"]):
                 ctx.nontriv((ch, entry, st["value"]))
             if n in (10, 4000):
